@@ -101,6 +101,23 @@ U2F_TRUSTED = COMMON_TRUSTED + [
 ]
 
 PROPS = {
+    "C14": {
+        "modules": ["PasskeyVerif.Props.C14"],
+        "props_files": ["PasskeyVerif/Props/C14.lean"],
+        "translators": [tr_decoders],
+        "harness": [["gen", "C14"]],
+        "technique": "Lean 4 theorems (all byte strings / all texts) over hand-written models of the base64 helpers, the Bytes visitor, StringOrNum and the client-data member order; differential correspondence on every leaf input; metamorphic stream on the real serde-derived parsers for the struct-level statements",
+        "trusted": COMMON_TRUSTED + [
+            "modelled by hand: encoding::{base64url, base64, try_from_base64url, try_from_base64} and Bytes::try_from(&str) (Base/Base64.lean), Bytes::deserialize on JSON values, StringOrNum / maybe_stringified / i64_to_iana (Model/WebauthnJson.lean; decimal texts with more than 15 significant digits are outside the model), the member order of a re-serialised CollectedClientData",
+            "NOT modelled: the serde-derived Deserialize / Serialize of the option and credential structs (member lookup, defaults, ignore_unknown, PossiblyUnknown, flatten): every presentation of a value is parsed by the real code and must give the same Debug rendering; emitted credentials are re-parsed and re-serialised by the real code",
+            "JSON reader Base/Json.lean (with an RFC 8259 number check in the driver) stands for serde_json's tokeniser; coset 0.3.8's table of known COSE algorithms is a parameter of the driver",
+            "translator translate/decoders.py: PossiblyUnknown is the buffered (untagged) form",
+        ],
+        "assumptions": ["an entry whose `type` is an unknown string is kept with the Unknown variant (the string is ignored, not the entry): such entries are the same in every presentation of a value"],
+        "level_text": "PARTIAL. Kernel-checked for every byte string: base64url encoding followed by Bytes::try_from is the identity, the text is unpadded and url-safe, and standard base64 text with any amount of padding decodes to the same bytes; under the model of the Bytes visitor a binary member parses to the same bytes as base64url text, as base64 text (padded or not) and as an array of number tokens denoting its bytes; under the model of StringOrNum a number token, a numeric string and an integral float denoting the same in-range value all parse to it, and out-of-range values are errors; re-serialised client data lists type, challenge, origin, crossOrigin first and then the other members as a sublist of the input in its order. Not proved: the serde-derived struct parsers. The stream compares the leaf models with the real parser on 700 leaf texts, and for 40 (thorough 300) option values parses 10 presentations each (all binary / numeric presentations, member orders, injected unknown members at every level, unknown enumeration strings, unknown list entries with the offending member first / in the middle / last) requiring one and the same parsed value; 29 emitted credentials re-parse and re-serialise identically; 80 client-data documents with shuffled members keep the specified order.",
+        "level_note": "Trusted: Lean kernel; axioms propext/Classical.choice/Quot.sound; hand models (compared on every leaf input); JSON reader; the metamorphic stream. Fixed defect (ecc6514): an unknown list entry was dropped only when its offending member came last in the object.",
+        "rule": "leaf texts: 80 (thorough 600) byte strings x 5 presentations, 20 malformed binary texts, 61 curated number texts (signs, exponents, fractions, range boundaries, inf/NaN spellings, blanks, hex, separators, 15 / 16 significant digits) + 80 (600) random ones, each as timeout and as algorithm identifier; 40 (300) option values (request / creation alternating, every optional member present or absent) x 10 presentations; 15 (100) register+authenticate pairs re-parsed; 300 (2000) base64url round trips; 80 (600) client-data documents.",
+    },
     "C15": {
         "modules": ["PasskeyVerif.Props.C15"],
         "props_files": ["PasskeyVerif/Props/C15.lean"],
